@@ -78,6 +78,21 @@ theorem html_comment_closed_partial : type_of% @Verif.Proofs.C09Html.html_commen
 theorem html_comment_closed_counterexample : type_of% @Verif.Proofs.C09Html.html_comment_closed_counterexample :=
   @Verif.Proofs.C09Html.html_comment_closed_counterexample
 
+/-- **HTML, the whole output** (flagship): under the decidable guard `walk` (text pieces `textSafe`, comments `goodComment`,
+    good tag/attribute names, no template/svg/math token, raw-text content without its end tag and without `<!--` in a
+    script) the output of the model is the concatenation of its per-token pieces and re-tokenises, by the HTML standard,
+    to exactly what each piece is on its own — for every option set, sub-minifier and token stream -/
+theorem html_output_retokenises_partial : type_of% @Verif.Proofs.C09Html.html_output_retokenises_partial :=
+  @Verif.Proofs.C09Html.html_output_retokenises_partial
+
+/-- without the guard it is false: a removed comment between `<` and `b>` creates a tag (K-C09-HTML-4) -/
+theorem html_output_retokenises_counterexample : type_of% @Verif.Proofs.C09Html.html_output_retokenises_counterexample :=
+  @Verif.Proofs.C09Html.html_output_retokenises_counterexample
+
+/-- html.go's reference decoding creates a tag from the text `<&#98;>` (K-C09-HTML-10) -/
+theorem html_text_safe_not_preserved : type_of% @Verif.Proofs.C09Html.html_text_safe_not_preserved :=
+  @Verif.Proofs.C09Html.html_text_safe_not_preserved
+
 /-- **HTML second pass**: on every token stream the model returns bytes or `ext missing` -/
 theorem html_second_pass_defined : type_of% @Verif.Proofs.C09Html.html_second_pass_defined :=
   @Verif.Proofs.C09Html.html_second_pass_defined
